@@ -12,7 +12,7 @@ trap cleanup EXIT
 export TORCHDYNAMO_DISABLE=1 SCIPY_ARRAY_API=1 TQDM_DISABLE=1
 run_demo() { (cd "$WT" && PYTHONPATH="$WT/src" timeout 600 /venv/bin/python "$SD/demo.py" >/tmp/demo.$$.out 2>&1); echo $?; }
 clean_rc=$(run_demo)
-if ! git -C "$WT" apply "$SD/patch.diff" 2>/tmp/apply.$$.err; then echo "RESULT $NAME: PATCH-DOES-NOT-APPLY $(head -2 /tmp/apply.$$.err)"; exit 0; fi
+if ! git -C "$WT" apply "$SD/patch.diff" 2>/tmp/apply.$$.err && ! git -C "$WT" apply --3way "$SD/patch.diff" 2>>/tmp/apply.$$.err && ! (cd "$WT" && patch -p1 -F3 -s < "$SD/patch.diff" >>/tmp/apply.$$.err 2>&1); then echo "RESULT $NAME: PATCH-DOES-NOT-APPLY $(head -2 /tmp/apply.$$.err)"; exit 0; fi
 patched_rc=$(run_demo)
 tests="skipped"
 if [ -z "$NOTESTS" ]; then
